@@ -399,7 +399,7 @@ theorem sigCheck_err {sig : Option Sig} {e : Err} (h : sigCheck sig = .error e) 
 theorem compile_error_cases {s : Summary} {e : Err} (h : compile s = .error e) :
     desugar s.macros s.rules = .error e ∨ ∃ rules, desugar s.macros s.rules = .ok rules ∧
       (hirRules s.decls rules = .error e ∨ configCheck s.attrs s.kind.parallel = .error e ∨
-        declsCheck s.decls = .error e ∨ sigCheck s.sig = .error e ∨ e = .strat) := by
+        declsCheck s.effDecls = .error e ∨ sigCheck s.sig = .error e ∨ e = .strat) := by
   unfold compile at h
   split at h
   · rename_i e1 he1
